@@ -179,6 +179,7 @@ func Bubble(t *testing.T, sc SchedCfg, body func(e *Env)) (res *Result) {
 	res = &Result{Diverged: -1}
 	defer func() {
 		sim.Cur = nil
+		simorder.YieldFn = nil
 		if r := recover(); r != nil {
 			msg := fmt.Sprint(r)
 			if strings.Contains(msg, "blocked goroutines remain") || strings.Contains(msg, "deadlock") {
@@ -195,6 +196,11 @@ func Bubble(t *testing.T, sc SchedCfg, body func(e *Env)) (res *Result) {
 		simorder.SetSeed(s.OrderSeed)
 		e := &Env{T: t, S: s, Res: res, hung: make(chan struct{})}
 		sim.Cur = s
+		simorder.YieldFn = func(site string) {
+			if c := sim.Cur; c != nil && !c.IsSchedGoroutine() {
+				c.ParkOwned("yield:"+site, "", nil)
+			}
+		}
 		start := time.Now()
 		body(e)
 		// teardown: release hung handlers, stop everything, drain
